@@ -74,7 +74,7 @@ fn op_digest(o: &OpOutcome) -> u64 {
     fnv_mix(h, &[o.ok as u8, o.panicked as u8])
 }
 
-const FLAGS: [ClvmFlags; 4] = [ClvmFlags::empty(), ClvmFlags::NEW_COST_MODEL, ClvmFlags::MALACHITE, ClvmFlags::NEW_COST_MODEL.union(ClvmFlags::ENABLE_GC)];
+const FLAGS: [ClvmFlags; 5] = [ClvmFlags::empty(), ClvmFlags::NEW_COST_MODEL, ClvmFlags::MALACHITE, ClvmFlags::NEW_COST_MODEL.union(ClvmFlags::ENABLE_GC), ClvmFlags::LIMITS.union(ClvmFlags::CANONICAL_INTS)];
 
 struct Plan {
     spaces: Vec<ProgSpace>,
@@ -95,6 +95,7 @@ fn plan(quick: bool) -> Plan {
         p_paths(40),
         p_gc(),
         p_vectors(if quick { 2 } else { 6 }),
+        p_limits(!quick),
     ];
     let mut alpha: Vec<T> = atoms_t(&if quick { a12() } else { a24() });
     alpha.push(crate::tree::cons(atom(&[1]), atom(&[2])));
@@ -284,6 +285,6 @@ pub fn run(ctx: &Ctx) -> Report {
     rep.states = total;
     rep.transitions = total * 3;
     rep.traces = total * 2;
-    rep.rule = format!("{total} cases, each evaluated by three separately built harness binaries (default features, clvmr/no-fastpath, clvmr/counters+pre-eval with an observe-only callback and run_program_with_counters): every program of P1, P1b, P2, P3, P4, PATHS, GC, PV x 4 flag sets under budget 0, C, C-1, C/2; 23 operators (all with a fast path and their neighbours) called directly with EVERY argument list of arity <={} over {} atoms in inline / heap / view representation under both cost models (budget high and C-1); sha256 of (1 n) for n = 0..40 in every representation with nil and non-nil terminator. One outcome digest (result, cost, error string, atom/pair/heap counts) per case; the streams must be byte-identical. The accumulator choice is scripted identically in the three binaries (hook H4). Non-trivial = distinct outcome digests.", p.op_arity, p.op_alpha.len());
+    rep.rule = format!("{total} cases, each evaluated by three separately built harness binaries (default features, clvmr/no-fastpath, clvmr/counters+pre-eval with an observe-only callback and run_program_with_counters): every program of P1, P1b, P2, P3, P4, PATHS, GC, PV, LIMITS x 5 flag sets (incl. LIMITS|CANONICAL_INTS) under budget 0, C, C-1, C/2; 23 operators (all with a fast path and their neighbours) called directly with EVERY argument list of arity <={} over {} atoms in inline / heap / view representation under both cost models (budget high and C-1); sha256 of (1 n) for n = 0..40 in every representation with nil and non-nil terminator. One outcome digest (result, cost, error string, atom/pair/heap counts) per case; the streams must be byte-identical. The accumulator choice is scripted identically in the three binaries (hook H4). Non-trivial = distinct outcome digests.", p.op_arity, p.op_alpha.len());
     rep
 }
